@@ -47,12 +47,13 @@ class _AddressList(Writeable):
 
     @property
     def _value(self) -> Writeable:
-        if self.headers:
-            addresses: list[Address] = []
-            for header in self.headers:
-                addresses.extend(header.addresses)
-            return List([self._parse(address)
-                         for address in addresses])
+        addresses: list[Address] = []
+        for header in self.headers:
+            addresses.extend(header.addresses)
+        if addresses:
+            # "(" 1*address ")", the addresses are not separated by spaces
+            return List([_Concatenated([self._parse(address)
+                                        for address in addresses])])
         else:
             return Nil()
 
@@ -75,6 +76,30 @@ class _ParamsList(Writeable):
             values = [(String.build(key), String.build(value))
                       for key, value in self.params.items()]
             return List(chain.from_iterable(values))
+        else:
+            return Nil()
+
+    def write(self, writer: WriteStream) -> None:
+        self._value.write(writer)
+
+    def __bytes__(self) -> bytes:
+        return bytes(self._value)
+
+
+class _Disposition(Writeable):
+
+    def __init__(self, header: ContentDispositionHeader | None) -> None:
+        super().__init__()
+        self.header = header
+
+    @property
+    def _value(self) -> Writeable:
+        # body-fld-dsp = "(" string SP body-fld-param ")" / nil
+        header = self.header
+        disposition = header.content_disposition if header else None
+        if disposition:
+            return List([String.build(disposition),
+                         _ParamsList(header.params)])
         else:
             return Nil()
 
@@ -247,16 +272,22 @@ class MultipartBodyStructure(BodyStructure):
         self.parts = parts
 
     @property
+    def _parts(self) -> Sequence[BodyStructure]:
+        # body-type-mpart = 1*body SP media-subtype, a multipart without any
+        # parsed sub-part is shown with one empty text part
+        return self.parts or [BodyStructure.empty()]
+
+    @property
     def _value(self) -> List:
-        return List([_Concatenated(self.parts), String.build(self.subtype)])
+        return List([_Concatenated(self._parts), String.build(self.subtype)])
 
     @property
     def extended(self) -> List:
         """The body structure attributes with extension data."""
-        parts = [part.extended for part in self.parts]
+        parts = [part.extended for part in self._parts]
         return List([_Concatenated(parts), String.build(self.subtype),
                      _ParamsList(self.content_type_params),
-                     String.build(self.content_disposition),
+                     _Disposition(self.content_disposition),
                      String.build(self.content_language),
                      String.build(self.content_location)])
 
@@ -320,7 +351,7 @@ class ContentBodyStructure(BodyStructure):
                                   fallback=b'7BIT'),
                      Number(self.size),
                      String.build(self.body_md5),
-                     String.build(self.content_disposition),
+                     _Disposition(self.content_disposition),
                      String.build(self.content_language),
                      String.build(self.content_location)])
 
@@ -380,7 +411,7 @@ class TextBodyStructure(ContentBodyStructure):
                                   fallback=b'7BIT'),
                      Number(self.size), Number(self.lines),
                      String.build(self.body_md5),
-                     String.build(self.content_disposition),
+                     _Disposition(self.content_disposition),
                      String.build(self.content_language),
                      String.build(self.content_location)])
 
@@ -450,7 +481,7 @@ class MessageBodyStructure(ContentBodyStructure):
                      self.body_structure.extended,
                      Number(self.lines),
                      String.build(self.body_md5),
-                     String.build(self.content_disposition),
+                     _Disposition(self.content_disposition),
                      String.build(self.content_language),
                      String.build(self.content_location)])
 
